@@ -263,6 +263,7 @@ pub fn run_check(ctx: &Ctx) -> i32 {
         sweep(ctx, "F<=2 x 11 subjects x all 63 observer subsets x L0,L1", Space::Frags { k, max: 2 }, &full, l1);
         foreign(&full, l1, "17 foreign-content documents x all pairs x L0,L1");
         sweep(ctx, "Fcore<=3 x 11 subjects x 7 observer subsets x strict{t,f} x L0,LB", Space::Frags { k: F_CORE, max: 3 }, &few, l0);
+        sweep(ctx, "B16<=3 x 11 subjects x 7 observer subsets x strict{t,f} x L0,L1", Space::Bytes { max: 3 }, &few, l1);
         let crowd = crowd_pairs(&subjects, &[33, 65]);
         sweep(ctx, "F<=2 x 11 subjects x crowds of 33 / 65 element observers (never matching, matching other elements, matching the same elements; before and after H) x L0", Space::Frags { k, max: 2 }, &crowd, Levels { l1: false, l2_max_len: 0, bytewise: false, empties: false });
         sweep(ctx, "F<=3 x 11 subjects x 2 observer subsets x L0", Space::Frags { k, max: 3 }, &two, Levels { l1: false, l2_max_len: 0, bytewise: false, empties: false });
